@@ -8,6 +8,7 @@ use crate::node::{Node, NodeStatus};
 pub const MAX_BUCKET_SIZE: usize = 8;
 
 /// Bucket containing Nodes with identical bit prefixes.
+#[cfg_attr(feature = "verif", derive(Clone))]
 pub struct Bucket {
     nodes: [Node; MAX_BUCKET_SIZE],
 }
